@@ -7,6 +7,7 @@ statements "options → capacity → at most that many workers inside".
 -/
 import GoZero.C05.ModelOpts
 import GoZero.C05.Props
+import GoZero.C05.PropsTL
 namespace GoZero.C05
 
 inductive BReach (shared : Bool) (opts : Tid → List WOpt) : BSt → Prop where
@@ -287,5 +288,90 @@ theorem mr_mappers_cap (ks : List Int) :
 example : streamCap [.withWorkers 5, .withWorkers (-3)] = some 1 ∧ streamCap [.withWorkers 3, .unlimited] = none
     ∧ streamCap [.unlimited, .withWorkers 3] = none ∧ seqCaps [[.unlimited], [.withWorkers 2], []] = [none, some 2, some 16] := by
   decide
+
+/-! ## 4. the clauses of the property statement, one theorem per clause (all primitives together)
+
+Each conjunct is for ALL capacities, thread counts, schedules and panic placements (see the theorems used). -/
+
+/-- **Clause 1 — "at no instant are more than n holders inside the guarded region"**: every semaphore site
+(Limit, TimeoutLimit client, TaskRunner, MaxConnsHandler, executeMappers, walkLimited, Guard), the explicit
+TimeoutLimit+Cond model, the Pool, WorkerGroup (k = workers), and fx / mr END TO END from the option list. -/
+theorem clause_cap :
+    (∀ name p, (name, p) ∈ Programs.all → ∀ n s, Reach p n s → ∀ l : List Tid, l.Nodup →
+        (∀ t ∈ l, inCrit p s t = true) → l.length ≤ n)
+    ∧ (∀ n s, TLReach n s → ∀ l : List Tid, l.Nodup → (∀ t ∈ l, s.pc t = .holding) → l.length ≤ n)
+    ∧ (∀ limit maxAge s, PReach limit maxAge s → s.inUse.length ≤ limit)
+    ∧ (∀ n k s, ReachK Programs.routineGroup n k s → ∀ l : List Tid, l.Nodup →
+        (∀ t ∈ l, inCrit Programs.routineGroup s t = true) → l.length ≤ k)
+    ∧ (∀ opts : List WOpt, WOpt.unlimited ∉ opts → ∃ n, streamCap opts = some n ∧ 1 ≤ n ∧
+        ∀ s, Reach Programs.walkLimited n s → ∀ l : List Tid, l.Nodup →
+          (∀ t ∈ l, inCrit Programs.walkLimited s t = true) → l.length ≤ n)
+    ∧ (∀ ks : List Int, ∃ n, streamCap (ks.map .withWorkers) = some n ∧ 1 ≤ n ∧
+        ∀ s, Reach Programs.executeMappers n s → ∀ l : List Tid, l.Nodup →
+          (∀ t ∈ l, inCrit Programs.executeMappers s t = true) → l.length ≤ n)
+    ∧ (∀ (m : Int) (n : Nat), engineCap true m = some n → (n : Int) = m ∧
+        ∀ s, Reach Programs.maxConns n s → ∀ l : List Tid, l.Nodup →
+          (∀ t ∈ l, inCrit Programs.maxConns s t = true) → l.length ≤ n) := by
+  refine ⟨fun name p hx n s h l hl hin => sites_cap name p hx n s h l hl hin,
+    fun n s h l hl hin => tl_cap n s h l hl hin,
+    fun limit maxAge s h => pool_cap limit maxAge s h,
+    fun n k s h l hl hin => workerGroup_cap n k s h l hl hin, ?_, ?_, ?_⟩
+  · intro opts hnu
+    obtain ⟨n, h1, h2, h3⟩ := fx_walk_cap opts hnu
+    exact ⟨n, h1, h2, fun s hs l hl hin => (h3 s hs).1 l hl hin⟩
+  · intro ks
+    obtain ⟨n, h1, h2, h3⟩ := mr_mappers_cap ks
+    exact ⟨n, h1, h2, fun s hs l hl hin => (h3 s hs).1 l hl hin⟩
+  · intro m n h
+    refine ⟨((engineCap_spec true m).2 n h).2.2, fun s hs l hl hin => ?_⟩
+    exact sem_cap Programs.maxConns (by decide) n s hs l hl hin
+
+/-- non-vacuity of the end-to-end conjuncts: `WithWorkers(3)` gives the capacity 3, the REST engine with
+`MaxConns = 5` a latch of 5. -/
+example : streamCap [.withWorkers 3] = some 3 ∧ engineCap true 5 = some 5 ∧ WOpt.unlimited ∉ [WOpt.withWorkers 3] := by decide
+
+/-- **Clause 2 — "a pooled resource is never held by two users at once".** -/
+theorem clause_pool_exclusive (limit maxAge : Nat) (s : PSys) (h : PReach limit maxAge s) (t u : Tid) (r : Nat)
+    (ht : (t, r) ∈ s.inUse) (hu : (u, r) ∈ s.inUse) : t = u := pool_exclusive limit maxAge s h t u r ht hu
+
+/-- **Clause 3 — "after all holders have finished, including by panic, the full capacity is available again"**:
+sites: channel empty and capacity `n`; TimeoutLimit: `used = 0` whatever waiters / timeouts are pending; Pool: with
+nothing in use every `Get` is served (`created = |idle|`); TaskRunner: `Wait` may return ⇒ all slots free. -/
+theorem clause_no_leak :
+    (∀ name p, (name, p) ∈ Programs.all → ∀ n s, Reach p n s → (∀ t, idle p s t = true) → s.used = 0 ∧ s.cap = n)
+    ∧ (∀ n s, TLReach n s → (∀ t, s.pc t ≠ .holding) → s.used = 0 ∧ s.cap = n)
+    ∧ (∀ limit maxAge s, PReach limit maxAge s → s.inUse = [] → 0 < limit →
+        (s.pool.created = (s.pool.idle.length : Int)) ∧ ∀ now, ∃ item fresh d, (s.pool.get now).2 = .got item fresh d)
+    ∧ (∀ n s, Reach Programs.runner n s → s.wg = 0 → s.used = 0) := by
+  refine ⟨fun name p hx n s h hq => sites_no_leak name p hx n s h hq, fun n s h hq => tl_no_leak n s h hq, ?_,
+    fun n s h hz => (runner_wait_means_idle n s h hz).1⟩
+  intro limit maxAge s h hu hl
+  have hi := pool_inv limit maxAge s h
+  refine ⟨by have := hi.1; rw [hu] at this; simpa using this, fun now => ?_⟩
+  exact pool_available limit maxAge s h (by rw [hu]; exact hl) now
+
+/-- **Clause 4 — "returning more than was borrowed is reported as an error and never raises the capacity".** -/
+theorem clause_over_return (n : Nat) (ops : List SemOp) :
+    ((Sem.init n).final ops).cap = n ∧ ((Sem.init n).final ops).used ≤ n
+    ∧ ((Sem.init n).trace ops).countP isOkReturn ≤ ((Sem.init n).trace ops).countP isOkBorrow
+    ∧ (((Sem.init n).final ops).used = 0 → ((Sem.init n).final ops).step .ret = ((Sem.init n).final ops, .errReturn)) :=
+  ⟨(limit_capacity_fixed n ops).1, (limit_capacity_fixed n ops).2, (returns_le_borrows n ops).1,
+   fun h => over_return_is_error _ h⟩
+
+/-- **Clause 5 — "requests beyond the cap are refused or blocked, never admitted"**: the object refuses / blocks
+when full; at every site a failed try ends in the refusal row holding nothing and a blocking acquire is not
+enabled; a full Pool makes `Get` wait. -/
+theorem clause_refusal :
+    (∀ s : Sem, s.used = s.cap → s.step .tryBorrow = (s, .refused) ∧ s.step .borrow = (s, .blocked))
+    ∧ (∀ name p, (name, p) ∈ Programs.all → ∀ (s s' : St) (t : Tid) (c : Bool) (r : Row) (els : Nat),
+        p[s.pc t]? = some r → r.instr = .tryAcquire els → ¬ s.used < s.cap → step p s t c = some s' →
+        s'.used = s.used ∧ s'.pc t = els ∧ H p els = false ∧ inCrit p s' t = false)
+    ∧ (∀ (p : Prog) (s : St) (t : Tid) (c : Bool) (r : Row), p[s.pc t]? = some r → r.instr = .acquire →
+        ¬ s.used < s.cap → step p s t c = none)
+    ∧ (∀ limit maxAge s, PReach limit maxAge s → s.inUse.length = limit → ∀ now, (s.pool.get now).2 = .wait []) :=
+  ⟨fun s h => refusal s h,
+   fun name p hx s s' t c r els hr hi hfull hs => sem_refusal p (sites_disciplined _ hx) s s' t c r els hr hi hfull hs,
+   fun p s t c r hr hi hfull => sem_full_blocks p s t c r hr hi hfull,
+   fun limit maxAge s h hfull now => pool_full_waits limit maxAge s h hfull now⟩
 
 end GoZero.C05
